@@ -601,6 +601,9 @@ func parseRaceLog(lg string) []raceReport {
 		var stacks [][]string
 		var cur []string
 		for _, line := range strings.Split(b, "\n") {
+			if strings.HasPrefix(line, "WARNING: DATA RACE") {
+				continue // the first access follows this line without a blank line
+			}
 			if line == "" {
 				if cur != nil {
 					stacks = append(stacks, cur)
